@@ -352,6 +352,53 @@ func enginePure(rc *RunCtx) *Outcome {
 			}
 		}
 		for op := 0; op < nOps && o.Class == ""; op++ {
+			if w.Bool(10) && len(sets) < 9 {
+				// a continuation (the next window of a hot-started simulation): the final states of an
+				// earlier execution become the initial states of a NEW argument set with the same
+				// model, parameters and inputs.  It is executed at once - the moment of the hand-over -
+				// and again later by the ordinary operations: a result that depends on the process
+				// having just produced these very states (a side channel keyed by them) differs between
+				// the two
+				src := sets[w.Choose(len(sets))]
+				if src.have && len(src.memoFin) == src.c.N*src.width {
+					cc := *src.c
+					cc.stateRows = nil
+					for i := 0; i < cc.N; i++ {
+						cc.stateRows = append(cc.stateRows, cloneF(src.memoFin[i*src.width:(i+1)*src.width]))
+					}
+					if w.Bool(50) && cc.T >= 2 {
+						// the forcing of the new window carries on from where the earlier one stopped: the
+						// last values persist for the first half of the window (a recession that has
+						// levelled out, a regulated release), then the series of the earlier window follows
+						h := (cc.T + 1) / 2
+						nb := make([][][]float64, len(src.c.inBlocks))
+						for b := range nb {
+							nb[b] = make([][]float64, len(src.c.inBlocks[b]))
+							for x, ser := range src.c.inBlocks[b] {
+								ns := make([]float64, len(ser))
+								for t := range ns {
+									if t < h {
+										ns[t] = ser[len(ser)-1]
+									} else {
+										ns[t] = ser[t-h]
+									}
+								}
+								nb[b][x] = ns
+							}
+						}
+						cc.inBlocks = nb
+						o.probe("continuation_whose_forcing_persists_from_the_earlier_window")
+					}
+					d := &argSet{c: &cc, width: src.width}
+					sets = append(sets, d)
+					opLog = append(opLog, fmt.Sprintf("continuation(%d:%s from the final states of an earlier set)", len(sets)-1, cc.Model))
+					_, b, out, fin, T := execArgs(d, nil, 0, 0, 0, false, false)
+					check(d, len(sets)-1, out, fin, 0, 0, T, "first execution of a continuation")
+					d.first = b
+					o.probe("continuation_from_the_final_states_of_an_earlier_execution")
+					continue
+				}
+			}
 			ai := w.Choose(len(sets))
 			a := sets[ai]
 			kind := w.Choose(8)
